@@ -49,7 +49,9 @@ func drawC14(t *rapid.T) caseC14 {
 	for i := 0; i < nj; i++ {
 		var j jobC14
 		j.Kind = rapid.SampledFrom([]string{"xzw", "xzw", "xzr", "lzmaw", "lzmar", "lzma2w", "lzma2r"}).Draw(t, "kind")
-		gen.DrawProps(t, &j.Cfg, true)
+		// classic LZMA instances may use the whole property space (lc up to 8,
+		// lc+lp > 4), xz and LZMA2 only lc+lp <= 4
+		gen.DrawProps(t, &j.Cfg, j.Kind != "lzmaw" && j.Kind != "lzmar")
 		j.Cfg.DictCap = rapid.SampledFrom([]int{4096, 8192, 65536}).Draw(t, "dictcap")
 		j.Cfg.BufSize = rapid.SampledFrom([]int{273, 512, 0}).Draw(t, "bufsize")
 		j.Cfg.Matcher = rapid.IntRange(0, 1).Draw(t, "matcher")
